@@ -463,6 +463,7 @@ C14Scen(v, cls, dupl) ==
         at(t) == CASE cls = "early" -> t                       \* long before probe t is recorded
                    [] cls = "tie" -> (t - mn) * dly           \* at the very instant probe t is being sent
                    [] cls = "after" -> (t - mn) * dly + 1500
+                   [] cls = "nexttie" -> (t - mn + 1) * dly  \* at the very instant the NEXT probe is being sent
                    [] OTHER -> IF t % 2 = 0 THEN t ELSE (t - mn) * dly + 700
         form(t) == IF t = mx THEN DestForm1(v) ELSE "te"
     IN [id |-> "C14/" \o v \o "/" \o cls \o (IF dupl THEN "/dup" ELSE ""), label |-> v \o "/" \o cls \o (IF dupl THEN "/dup" ELSE ""),
@@ -474,7 +475,13 @@ C14Scen(v, cls, dupl) ==
         inject |-> [k \in 1..(mx - mn + 1) |-> [at_us |-> at(mn + k - 1), for_ttl |-> mn + k - 1, form |-> form(mn + k - 1),
                                               from |-> IF form(mn + k - 1) = "te" THEN Router(v, mn + k - 1) ELSE "TARGET",
                                               dup |-> IF dupl THEN 1 ELSE 0, dup_us |-> 2500, tag |-> cls]]]
-C14All(u) == { C14Scen(v, c, d) : v \in ParVariants, c \in {"early", "tie", "after", "mixed"}, d \in BOOLEAN }
+\* a target one hop away that negotiated TCP timestamps: EVERY probe is answered by a selective ACK (with an advancing TSval) while
+\* the sender is still sending
+C14SackTS(cls, dupl) ==
+    LET base == C14Scen("sack", cls, dupl) IN
+    [base EXCEPT !.id = @ \o "/all_sack_ts", !.label = @ \o "/all_sack_ts", !.sack_ts = TRUE,
+                 !.inject = [k \in DOMAIN base.inject |-> [base.inject[k] EXCEPT !.form = "sack", !.from = "TARGET"]]]
+C14All(u) == { C14SackTS(c, d) : c \in {"tie", "after", "nexttie"}, d \in BOOLEAN } \cup { C14Scen(v, "nexttie", d) : v \in ParVariants, d \in BOOLEAN } \cup { C14Scen(v, c, d) : v \in ParVariants, c \in {"early", "tie", "after", "mixed"}, d \in BOOLEAN }
 
 ---------------------------------------------------------------------------
 Cases == CASE Gen = "C01" -> C01All(0)
